@@ -406,4 +406,43 @@ example : ∃ D, Fairness.eodds "equalized_odds_difference" .between .worstCase 
     (by decide +kernel) (by decide +kernel) yFeasible (by decide +kernel) (by decide +kernel) none (by decide +kernel)
     (by decide +kernel) (by decide +kernel) (by decide +kernel) (by decide +kernel)).2
 
+/-- **deterministic result, ErrorRateParity**: the certificate bounds `accuracy_score_difference` /
+    `zero_one_loss_difference` of the returned hard predictor (`weights_` = unit vector `i`) -/
+theorem eg_pure_erp_bounds (rows : List Row) (eps : Rat)
+    (H : Nat → List Rat) (nH : Nat) (err : Nat → Rat) (B g : Rat) (lam Q' : Nat → Rat) (i : Nat) (hi : i < nH)
+    (hH : ∀ t < nH, (H t).length = rows.length) (hB : 0 < B)
+    (hgap : trueGap (momentTable (eventOf .erp) rows 1 erpUtil eps H nH err) B (unit i) lam ≤ g)
+    (hl : ∀ j < (index (eventOf .erp) rows).length, 0 ≤ lam j)
+    (hf : Feasible (momentTable (eventOf .erp) rows 1 erpUtil eps H nH err) Q')
+    (he0 : 0 ≤ errQ (momentTable (eventOf .erp) rows 1 erpUtil eps H nH err) (unit i))
+    (he1 : errQ (momentTable (eventOf .erp) rows 1 erpUtil eps H nH err) Q' ≤ 1)
+    (c0 : Option String) (hh : Hard (H i)) (hy : ∀ r ∈ rows, r.y = 0 ∨ r.y = 1)
+    (hne : rows.filter (fun r => r.c == c0) ≠ []) :
+    (∃ D, Fairness.generated "accuracy_score_difference" .toOverall 1 (toFrame (fun r => r.c == c0) rows (H i))
+        = some (some (.value (XR.fin D))) ∧ 0 ≤ D ∧ D ≤ eps + (1 + 2 * g) / B) ∧
+    (∃ D, Fairness.generated "accuracy_score_difference" .between 1 (toFrame (fun r => r.c == c0) rows (H i))
+        = some (some (.value (XR.fin D))) ∧ 0 ≤ D ∧ D ≤ 2 * (eps + (1 + 2 * g) / B)) := by
+  have hc := eg_constraint_of_certificate (eventOf .erp) rows 1 erpUtil eps H nH err B g (unit i) lam Q' hH
+    (sum_unit i nH hi) hB hgap hl hf he0 he1
+  rw [mixN_unit rows.length H nH i hi hH] at hc
+  exact (C06.erp_constraint_bounds rows (H i) _ c0 (hH i hi) hh hy hne hc).1
+
+/-! non-vacuity: ErrorRateParity on `yRows`; h0 = the labels (error 0 everywhere), h1 = all zero (error 1/2 in both groups);
+    both are feasible with slack 0, the deterministic result `unit 0` has gap 0 against λ = 0 -/
+def zH : Nat → List Rat := fun t => if t = 0 then [1, 1, 0, 0, 1, 1, 0, 0] else [0, 0, 0, 0, 0, 0, 0, 0]
+def zT : Table := momentTable (eventOf .erp) yRows 1 erpUtil (1/10) zH 2 (vec [0, 1/2])
+theorem zFeasible : Feasible zT (unit 0) :=
+  ⟨by decide +kernel, fun i hi => by
+      have : i = 0 ∨ i = 1 := by have : i < 2 := hi; omega
+      rcases this with rfl | rfl <;> decide +kernel,
+    fun j hj => by
+      have : j < 4 := hj
+      have : j = 0 ∨ j = 1 ∨ j = 2 ∨ j = 3 := by omega
+      rcases this with rfl | rfl | rfl | rfl <;> decide +kernel⟩
+example : ∃ D, Fairness.generated "accuracy_score_difference" .between 1 (toFrame (fun r => r.c == none) yRows (zH 0))
+      = some (some (.value (XR.fin D))) ∧ 0 ≤ D ∧ D ≤ 2 * (1/10 + (1 + 2 * 0) / 10) :=
+  (eg_pure_erp_bounds yRows (1/10) zH 2 (vec [0, 1/2]) 10 0 (vec [0, 0, 0, 0]) (unit 0) 0 (by decide) (by decide +kernel) (by norm_num)
+    (by decide +kernel) (by decide +kernel) zFeasible (by decide +kernel) (by decide +kernel) none (by decide +kernel)
+    (by decide +kernel) (by decide +kernel)).2
+
 end C08
